@@ -221,7 +221,8 @@ class GValid:
         if cx.elide_mode == "cond" and rng.random() < 0.5 and not getattr(cx, "in_left_branch", False):
             out.append(elide())
             cx.features.add("elide_atom")
-        if (rng.random() < cfg["p_return"] * 0.3 and not cx.is_start):
+        if (rng.random() < cfg["p_return"] * 0.3 and not cx.is_start and not cx.in_choice and not cx.choice_safe_rule):
+            # `&` in a rule shared with an ordered choice: bucket F18
             out.append(ret())
             cx.features.add("return")
         return out
